@@ -138,7 +138,9 @@ func (it *Interp) set(fr *frameState, v ssa.Value, x Val) {
 const maxDepth = 400
 
 // callFunction interprets fn with the given arguments.
-func (it *Interp) callFunction(fn *ssa.Function, args []Val) Val { return it.callFunctionB(fn, args, nil) }
+func (it *Interp) callFunction(fn *ssa.Function, args []Val) Val {
+	return it.callFunctionB(fn, args, nil)
+}
 
 func (it *Interp) callFunctionB(fn *ssa.Function, args []Val, bind []Val) (ret Val) {
 	if fn.Blocks == nil {
@@ -475,6 +477,19 @@ func (it *Interp) aggField(v Val, st *types.Struct, idx int) Val {
 
 // allocSize turns a (possibly symbolic) size into a concrete one, checking the allocation budget.
 func (it *Interp) allocSize(n Int, signed bool, site string) int {
+	// one label per allocating repository function, so that a recorded finding at one site does not hide another site
+	allocLabel := "alloc-budget"
+	for i := len(it.curFn) - 1; i >= 0; i-- {
+		fn := it.curFn[i]
+		if pk := it.pkgOf(fn); strings.HasPrefix(pk, "github.com/scigolib/hdf5") && !isVrt(pk) {
+			name := fn.String()
+			if j := strings.LastIndex(name, "/"); j >= 0 {
+				name = name[j+1:]
+			}
+			allocLabel = "alloc-budget@" + name
+			break
+		}
+	}
 	if n.T == nil {
 		v := sext(n.C, n.W)
 		if !signed {
@@ -484,7 +499,7 @@ func (it *Interp) allocSize(n Int, signed bool, site string) int {
 			it.goPanic("runtime error: makeslice: len out of range")
 		}
 		if v > int64(it.maxAllocSlots) {
-			it.violationNow("alloc-budget", fmt.Sprintf("allocation of %d elements (%s)", v, site))
+			it.violationNow(allocLabel, fmt.Sprintf("allocation of %d elements (%s)", v, site))
 		}
 		return int(v)
 	}
@@ -496,16 +511,16 @@ func (it *Interp) allocSize(n Int, signed bool, site string) int {
 	if w >= 64 || uint64(it.allocBudg) < uint64(1)<<uint(w) {
 		// ask for a really large size first, so that the native replay of a counterexample fails for certain
 		huge := uint64(1) << 40
-		if (w >= 64 || huge < uint64(1)<<uint(w)) && huge > uint64(it.allocBudg) && it.label("alloc-budget", "alloc").Cex == nil {
+		if (w >= 64 || huge < uint64(1)<<uint(w)) && huge > uint64(it.allocBudg) && it.label(allocLabel, "alloc").Cex == nil {
 			it.sol.SyncPC(it.pc)
 			if r := it.sol.CheckWith(it.ctx.Cmp("bvugt", n.T, it.ctx.BV(w, huge))); r == sym.Sat {
-				ls := it.label("alloc-budget", "alloc")
+				ls := it.label(allocLabel, "alloc")
 				ls.Checked++
-				ls.Cex = &Cex{Label: "alloc-budget", Kind: "alloc", Detail: fmt.Sprintf("allocation size governed by unchecked input can exceed 2^40 elements (%s)", site), Vector: it.modelVector(), Where: it.where(), PathNo: it.pathNo}
+				ls.Cex = &Cex{Label: allocLabel, Kind: "alloc", Detail: fmt.Sprintf("allocation size governed by unchecked input can exceed 2^40 elements (%s)", site), Vector: it.modelVector(), Where: it.where(), PathNo: it.pathNo}
 			}
 			it.sol.ReleaseModel()
 		}
-		it.oblige(it.fromBTerm(it.ctx.Cmp("bvule", n.T, it.ctx.BV(w, uint64(it.allocBudg)))), "alloc-budget", "alloc",
+		it.oblige(it.fromBTerm(it.ctx.Cmp("bvule", n.T, it.ctx.BV(w, uint64(it.allocBudg)))), allocLabel, "alloc",
 			fmt.Sprintf("allocation size governed by unchecked input can exceed %d elements (%s)", it.allocBudg, site))
 	}
 	v := it.concretize(n, 40, "allocation size ("+site+")")
@@ -809,6 +824,10 @@ func (it *Interp) callValue(fnv Val, args []Val, c *ssa.CallCommon) Val {
 	cl, ok := fnv.(Closure)
 	if !ok {
 		it.engineBug("call of non-function " + describe(fnv))
+	}
+	if cl.Builtin == "engine:cancel" {
+		it.ctxCancel(cl.Bind[0].(*Opaque).V.(*ctxState))
+		return nil
 	}
 	if cl.Builtin != "" {
 		return it.builtin(cl.Builtin, args, c)
